@@ -704,3 +704,124 @@ pub fn c11_blackbox(run: &mut Run, roots: &[(Pos, bool, Vec<Mv>)]) {
         run.acc.merge(a, &[]);
     }
 }
+
+// ------------------------------------------------------------------------------------------------
+// Info bursts at the deadline (C03 / C18): on a root with a mate in one the search thread races
+// through the iterations and prints about a hundred info lines within a millisecond or two. With a
+// slice of 1-3 ms the I/O thread prints `bestmove` while that burst is in full flow - the moment
+// at which the two threads are most likely to write to standard output at the same time.
+// ------------------------------------------------------------------------------------------------
+
+pub fn burst_roots(seed: u64, n: usize) -> Vec<Pos> {
+    let mut rng = Rng::stream(seed, 0xB0857);
+    let mut out: Vec<Pos> = Vec::new();
+    for fen in ["k7/8/1K6/8/8/8/8/7R w - -", "6k1/5ppp/8/8/8/8/5PPP/3R2K1 w - -", "8/8/8/8/7Q/8/k1K5/8 w - -", "r1bqkb1r/pppp1ppp/2n2n2/4p2Q/2B1P3/8/PPPP1PPP/RNB1K1NR w KQkq -"] {
+        let p = Pos::parse_fen(fen).unwrap();
+        if Solver::new(200_000).mate_in(&p, 1) == Some(true) {
+            out.push(p);
+        }
+    }
+    let mats: &[(&[Kind], &[Kind])] = &[(&[Kind::Queen], &[]), (&[Kind::Rook], &[]), (&[Kind::Rook, Kind::Rook], &[]), (&[Kind::Queen, Kind::Pawn], &[Kind::Pawn]), (&[Kind::Queen], &[Kind::Rook])];
+    let mut tries = 0;
+    while out.len() < n && tries < 200_000 {
+        tries += 1;
+        let (w, b) = mats[rng.below(mats.len() as u64) as usize];
+        let stm = if rng.chance(1, 2) { Color::White } else { Color::Black };
+        if let Some(p) = super::c11::material_position(&mut rng, w, b, stm) {
+            if Solver::new(100_000).mate_in(&p, 1) == Some(true) {
+                out.push(p);
+            }
+        }
+    }
+    out
+}
+
+/// `prop` = "C03": exactly one well-formed legal bestmove per go; "C18": every info line well-formed.
+pub fn burst_sessions(run: &mut Run, prop: &'static str) {
+    let seed = run.seed;
+    let plain = match bb::build_plain() {
+        Ok(b) => b,
+        Err(e) => {
+            run.acc.inconclusive.push(e);
+            return;
+        }
+    };
+    let roots = burst_roots(seed, 24);
+    if roots.is_empty() {
+        return;
+    }
+    let sessions = run.tier.pick(16usize, 128);
+    let per = run.tier.pick(40usize, 120);
+    // strace may be unavailable (ptrace forbidden): then only the undelayed sessions run
+    let strace_ok = std::process::Command::new("strace").args(["-f", "-q", "-e", "trace=write", "-e", "inject=write:delay_exit=1", "-o", "/dev/null", "true"]).output().map(|o| o.status.success()).unwrap_or(false);
+    run.set("strace_write_delay_injection_available", json!(strace_ok));
+    let res = run_parallel(16, sessions, |sid| {
+        let mut acc = Acc::new();
+        let mut rng = Rng::stream(seed, 0xB085_0000 + sid as u64);
+        let mut opts = SpawnOpts::default();
+        if sid % 4 == 3 {
+            opts.pin_cpu = Some(sid % 16);
+        }
+        // half of the sessions run under strace with a delay injected after every write system
+        // call: two writes that belong together but are not made under one lock are pulled apart
+        let delayed = sid % 2 == 0 && strace_ok;
+        if delayed {
+            opts.pin_cpu = None;
+            opts.strace_write_delay_us = Some(*rng.pick(&[150u32, 300, 600]));
+        }
+        let mut s = match Sess::start(&plain, opts, false) {
+            Ok(s) => s,
+            Err(e) => {
+                acc.inconclusive.push(format!("session start failed: {}", e));
+                return acc;
+            }
+        };
+        for i in 0..per {
+            let p = &roots[rng.below(roots.len() as u64) as usize];
+            s.position_fen(p);
+            let ms = if delayed { 2 + rng.below(30) as u32 } else { *rng.pick(&[1u32, 1, 2, 2, 3, 4]) };
+            let mut g = s.go(&slice_args(p.stm, ms, &mut rng), WATCHDOG);
+            if delayed {
+                acc.feature("go_under_injected_write_delays");
+            }
+            let script = vec![format!("position fen {}", p.to_fen6(0, 1)), g.args.clone()];
+            let case = json!({"kind": "session", "property": prop, "script": script, "transcript_tail": s.eng.transcript_text(8)});
+            let text = match &g.bestmove {
+                Some((t, _)) => t.clone(),
+                None => {
+                    if prop == "C03" {
+                        // the line may have been glued to another one: look at what did arrive
+                        let tail = s.eng.transcript_text(6);
+                        if s.eng.exited().is_none() && s.eng.thread_count() <= 1 {
+                            acc.violation(format!("C03|burst-no-answer|{}|{}", p.to_fen(), i), format!("no bestmove line for '{}' on {} although the search is over (last output: {:?})", g.args, p.to_fen(), tail), case);
+                        } else {
+                            acc.inconclusive.push("burst go not answered".into());
+                        }
+                    }
+                    return acc;
+                }
+            };
+            s.settle(&mut g, WATCHDOG);
+            acc.evaluations += 1;
+            if g.info_lines.len() >= 10 {
+                acc.feature("go_with_info_burst_at_the_deadline");
+                acc.distinct.insert(hash64(&format!("burst|{}|{}|{}", p.to_fen(), sid, i)));
+            }
+            if prop == "C03" {
+                if g.n_bestmove_lines != 1 {
+                    acc.violation(format!("C03|burst-count|{}", p.to_fen()), format!("{} bestmove lines for one '{}' on {}", g.n_bestmove_lines, g.args, p.to_fen()), case.clone());
+                }
+                let ok = super::c03::wellformed_move(&text) && parse_mv(&text).map(|m| legal_moves(p).contains(&m)).unwrap_or(false);
+                if !ok {
+                    acc.violation(format!("C03|burst-malformed|{}|{}", p.to_fen(), truncate(&text, 40)), format!("'{}' on {} answered 'bestmove {}', which is not one legal move in long algebraic notation", g.args, p.to_fen(), truncate(&text, 120)), case.clone());
+                }
+            } else {
+                check_transcript_lines(&g.info_lines, p, &g.args, &mut acc);
+            }
+        }
+        acc
+    });
+    for a in res {
+        run.acc.merge(a, &[]);
+    }
+}
